@@ -442,7 +442,7 @@ theorem assembled_wf_nodebug (stmts : List Stmt) (obj : ObjFile) (h : assemble s
     unfold pass2 at h
     cases hf : (blks.flatMap Blk.stmts ++ tail).foldlM (pass2Step t) ⟨[], none⟩ with
     | error e => rw [hf] at h; cases h
-    | ok st => rw [hf] at h; cases h; simp
+    | ok st => rw [hf] at h; cases h; simp only [Option.isSome_none, Bool.false_or]
   refine ⟨sortedKeys_of_pairwise _ hsorted, fun e he => ?_, fun t' ht' => ?_⟩
   · obtain ⟨b, hb, ws, hw, _, rfl⟩ := hmem e he
     have hext := block_extent blks tail none t hwf hp1 b hb
@@ -480,11 +480,12 @@ theorem assembled_wf_nodebug (stmts : List Stmt) (obj : ObjFile) (h : assemble s
           rw [hlines] at hp1
           injection hp1 with hp1
           subst hp1
-          refine ⟨hu, fun e he' => he e he', ?_, fun e he' => hrk e (List.mem_filter.mp he').1, fun d hd => by cases hd, Or.inl ?_⟩
+          refine ⟨hu, fun e he' => he e he', ?_, fun e he' => hrk e (List.mem_filter.mp he').1, (fun d hd => by cases hd), Or.inl ?_⟩
           · exact List.Nodup.sublist (List.Sublist.map _ List.filter_sublist) hr
           · intro hnil
+            have hnil' : st.labels = [] := hnil
             simp only at hany
-            rw [hnil] at hany
+            rw [hnil'] at hany
             simp at hany
     · simp only [hany, Bool.false_eq_true, if_false] at ht'
       cases ht'
